@@ -12,6 +12,9 @@ import contextlib
 import inspect
 import io
 import os
+import collections.abc
+import enum
+import fractions
 import itertools
 import typing
 
@@ -83,6 +86,7 @@ def build_schema(groups, dynamic=False):
         add("flag", cc.FeatureFlagField(default=True))
     if "misc" in groups:
         add("m_any", cc.AnyField()); add("m_inc", cc.IncludeField())
+        add("m_fraction", cc.NumberField(fractions.Fraction))      # a number class whose metaclass is not `type`
         add("m_named", cc.IntField(name="Friendly Name"))        # a display name is not an identifier and not the key
         add("gr\u00f6\u00dfe", cc.IntField())                       # keys are identifiers, not necessarily ASCII
         add("\u540d\u524d", cc.StringField())
@@ -99,13 +103,20 @@ def _local_class():
 
 
 LocalMarker = _local_class()
+
+
+class Colour(enum.Enum):
+    RED = 1
+    BLUE = 2
 PARAM_ANN = {"none": "", "int": ": int", "class": ": Marker", "localclass": ": LocalMarker", "strlit": ": 'str'", "generic": ": typing.List[int]",
              "builtin-generic": ": list[int]", "optional": ": typing.Optional[Marker]",
              # typing special forms that carry no __origin__
              "noreturn": ": typing.NoReturn", "anystr": ": typing.AnyStr", "bare-optional": ": typing.Optional", "literalstring": ": typing.LiteralString",
-             "never": ": typing.Never", "any": ": typing.Any", "callable": ": typing.Callable[[int], str]"}
+             "never": ": typing.Never", "any": ": typing.Any", "callable": ": typing.Callable[[int], str]",
+             # classes whose metaclass is not `type`
+             "enum": ": Colour", "abc": ": collections.abc.Mapping", "fraction": ": fractions.Fraction"}
 RET_ANN = {"absent": "", "int": " -> int", "none": " -> None", "strlit": " -> 'str'", "optional": " -> typing.Optional[int]",
-           "generic": " -> typing.Dict[str, int]", "class": " -> Marker", "localclass": " -> LocalMarker"}
+           "generic": " -> typing.Dict[str, int]", "class": " -> Marker", "localclass": " -> LocalMarker", "enum": " -> Colour", "abc": " -> collections.abc.Sequence"}
 
 
 def signatures(tier):
@@ -144,7 +155,7 @@ def make_func(sig, name="meth"):
     if sig["starkw"]:
         parts.append("**extra" + (ann if sig.get("starann") else ""))
     src = "def %s(%s)%s:\n    return 0\n" % (name, ", ".join(parts), RET_ANN[sig["rann"]])
-    ns = {"typing": typing, "Marker": Marker, "LocalMarker": LocalMarker}
+    ns = {"typing": typing, "Marker": Marker, "LocalMarker": LocalMarker, "Colour": Colour, "collections": collections, "fractions": fractions}
     exec(src, ns)
     return ns[name], src
 
